@@ -153,6 +153,16 @@ func runRabin(t *core.Tape, tier string, info *core.RunInfo) *core.Violation {
 					}
 					p.beh[k] = true
 				}
+				// the clause "an invalid deal that stays unjustified disqualifies the dealer"
+				// needs a bad share AND a missing/wrong justification from the same dealer: with
+				// independent picks from a 13-entry menu that pair came up twice in 6000 runs and
+				// the quick tier (seed 1) missed the revert of fix 55ed310
+				if t.Bool("cfg.couple", 200) {
+					p.beh["deal-share-off-poly"] = true
+				}
+				if p.beh["deal-share-off-poly"] && t.Bool("cfg.couple", 500) {
+					p.beh[[]string{"just-missing", "just-wrong-share"}[t.Intn("cfg.couple", 2)]] = true
+				}
 			}
 		}
 	}
